@@ -193,6 +193,21 @@ CLAIMS = {
           "structs are unknown to it). Known findings KF-C10-1..4 are all in native code (cencoding.pyx) and cannot be "
           "repaired here: field 14 dropped, i8/i16 widened to i64, buffer overrun for large binary fields, i8 read unsigned."),
     technique="TLA+ specs: IDL-generated acceptor for token-trace validation, shape lattice export, integer buffer model"),
+ "C12": dict(
+    level="exploration",
+    text=("Memory safety of compiled C is not a TLA+ notion: the specifications contribute the bounds models (Codec.tla's "
+          "cursor machine with OutWithinCapacity/InWithinInput; ThriftBuffer.tla's NeverOutside, both model-checked, the "
+          "latter violated by the buffer heuristic exactly for the size classes that overrun) and the systematic input "
+          "spaces (TLC-computed codec vectors, IDL value shapes, buffer-model size points, sampled write/read cases). The "
+          "verdict on the real code is the sanitizer's: the extension modules are rebuilt from the working tree's C files "
+          "with clang ASan+UBSan and every input is replayed in expendable processes; a report located in the library's "
+          "own functions (mapped back to the .pyx line), an abort or a signal is a violation."),
+    design_ref="DESIGN.md section 5 C12, section 6",
+    note=("Claimed as exploration, not model checking. 11 known findings (KF-C12-*: shifts wider than the type in "
+          "read_bitpacked/_mask_for_bits/read_rle/delta_read_bitpacked/encode_bitpacked/zigzag/varint, heap overflow in "
+          "write_thrift) are native and cannot be repaired here; a report in any other function or of another kind is a "
+          "new violation. The generated foreign files of C03 are replayed by the C03 check itself."),
+    technique="TLA+ bounds models and input spaces + replay under an ASan/UBSan build (sanitizer is the oracle)"),
 }
 
 NOT_BUILT = "not built yet (construction order in DESIGN.md section 9)"
